@@ -194,7 +194,9 @@ def provider(repo: Repo, chk: Check) -> None:
                 oke = bool(enc) and isinstance(enc[0].value, ast.Constant) and enc[0].value.value is True
                 chk.ob("O3", site, oke, "wrap_iov(encrypt=True)" if oke else "wrap does not request encryption (encrypt=True)")
                 v = ps.value
-                parts = v.args[0].elts if isinstance(v, ast.Call) and unparse(v.func) == "b''.join" and v.args and isinstance(v.args[0], (ast.List, ast.Tuple)) else []
+                from .util import concat_parts
+
+                parts = concat_parts(v)
                 okw = len(parts) == 4 and ps.text(parts[0]) == "header" and _buffer_data(ps, parts[1], call, 1) and ps.text(parts[2]) == "trailer" and _buffer_data(ps, parts[3], call, 3)
                 chk.ob("O3", Site.of(f, ps.exit_node), okw, "PDU = header || sealed body || trailer || signature" if okw else f"wrap returns {[ps.text(p) for p in parts] or ps.text(v)}, expected [header, <sealed>.buffers[1].data, trailer, <sealed>.buffers[3].data]")
     # both trailers at PKT_PRIVACY
